@@ -3,7 +3,7 @@ import hashlib
 import json
 import random
 
-from ..core import Ctx, ModelRunner, prove, finish
+from ..core import Ctx, ModelRunner, prove, finish, hx, zhex
 from .. import pyenv, filecontract as fc, savecommon as sc
 from ..builders import save as SV
 
@@ -12,6 +12,9 @@ TRUSTED = [
     'hand model coq/Model/Ivfc.v of IVFCHashTree.get_block / _get_block_internal (per-level verification caches, deep verification) and of '
     'the DPFS active-bit selection, tied by the oracle runs below (the model is the specification the reader is compared with through the '
     'independent verifier of harness/builders/save.py)',
+    'hand models coq/Model/Blocks.v, Dpfs.v, IvfcRead.v of the block-wise reads (DPFSLevel3.get_data, DPFSLevel3FileIO.read, DPFSLevel1/2 '
+    'construction, IVFCLevel4Reader.read), tied by the correspondence runs (same reads on the raw two-copy areas / on hand-made trees, clean '
+    'and corrupted); translator py2gallina.py: get_block_range and get_active_bit regenerated each run and proved equal to the model definitions',
     'independent builder and verifier harness/builders/save.py (hashlib only) = ground truth for active copies and chain validity',
 ]
 ASSUME = [
@@ -55,6 +58,27 @@ def run_case(ctx, mr, case):
         bs4 = ip['block_sizes'][3]
         c2.run(fc.gen_ops(rng, len(payloads[pi]), 6, writable=False, whences=(0, 0, 1, 2)) + read_history(rng, len(payloads[pi]), bs4, 3))
         ctx.stat('clean_views')
+        # 3. the DPFS tree has a Coq model (Model/Dpfs.v, proved to return the slice of the active view): same reads on the raw areas
+        (o1, s1), (o2, s2), (o3, s3) = ip['dpfs_areas']
+        reads = []
+        for _ in range(6):
+            pos = rng.choice([0, 1, rng.randrange(s3 + 1), max(0, s3 - 1), s3, s3 + 3])
+            reads.append((pos, rng.choice([-1, 0, 1, 2, ip['dpfs_block_sizes'][2], ip['dpfs_block_sizes'][2] + 1, rng.randrange(1, 2 * s3 + 2), s3])))
+        impl = []
+        f3 = part.dpfs_lv3_file
+        for pos, n in reads:
+            f3.seek(pos)
+            got = f3.read(n)
+            impl.append(hx(got) if got else '-')
+        line = 'dpfsread %s %x %s %s %s %s %s ' % (hx(img[o1:o1 + 2 * s1]), ip['dpfs_selector'], hx(img[o2:o2 + 2 * s2]), zhex(ip['dpfs_block_sizes'][1]),
+                                                 hx(img[o3:o3 + 2 * s3]), zhex(s3), zhex(ip['dpfs_block_sizes'][2])) + \
+               ' '.join('%s,%s' % (zhex(p_), zhex(n_)) for p_, n_ in reads)
+        out = mr.ask(line).split(' ')
+        if out != impl:
+            k = next((i for i, (a, b) in enumerate(zip(out, impl)) if a != b), 0)
+            ctx.diff('corr', 'dpfs-read-model', dict(case, part=pi, read=reads[k]), out[k][:60], impl[k][:60],
+                     f'DPFS level-3 file: Coq model and implementation differ for seek({reads[k][0]}); read({reads[k][1]})')
+        ctx.stat('dpfs_model_reads', len(reads))
     c.close()
     # 3. corruption x read history
     for _ in range(case['corruptions']):
@@ -188,6 +212,26 @@ def tree_case(ctx, mr, case):
     ctx.stat('tree_histories')
     if out != impl:
         ctx.diff('corr', 'ivfc-getblock-model', case, out, impl, 'IVFC get_block: Coq model and implementation statuses differ')
+    # byte-level reads of the verified view (Model/IvfcRead.v, proved to return the slice of "stored bytes where valid, filler elsewhere")
+    from pyctr.type.save.partdesc.ivfc import IVFCLevel4Reader
+    n4 = len(levels[3])
+    for verify in (True, False):
+        rd = IVFCLevel4Reader(IVFCHashTree(io.BytesIO(fpdata), ivfc, list(master)), verify=verify, deep_verify=True)
+        reads = [(rng.choice([0, 1, rng.randrange(n4 + 1), n4 - 1, n4, n4 + 2, rng.randrange(n4 + 1) // bss[3] * bss[3]]),
+                  rng.choice([-1, 0, 1, bss[3] - 1, bss[3], bss[3] + 1, rng.randrange(1, n4 + 3), 3])) for _ in range(5)]
+        rimpl = []
+        for pos, n in reads:
+            rd.seek(pos)
+            got = rd.read(n)
+            rimpl.append(hx(got) if got else '-')
+        line = 'lv4read %d ' % verify + ' '.join(zhex(b) for b in bss) + ' ' + ' '.join(hx(d) for d in levels) + ' ' + hx(b''.join(master)) + ' ' + \
+               ' '.join('%s,%s' % (zhex(p_), zhex(n_)) for p_, n_ in reads)
+        rout = mr.ask(line).split(' ')
+        ctx.stat('lv4_model_reads', len(reads))
+        if rout != rimpl:
+            k = next((i for i, (a, b) in enumerate(zip(rout, rimpl)) if a != b), 0)
+            ctx.diff('corr', 'lv4-read-model', dict(case, verify=verify, read=reads[k]), rout[k][:60], rimpl[k][:60],
+                     f'IVFC level-4 reader (verify={verify}): Coq model and rimplementation differ for seek({reads[k][0]}); read({reads[k][1]})')
     # the property itself, from the bytes alone: valid <=> every stored hash on the path up to the master hash matches (an empty slot
     # matches nothing)
     def authentic(li, b):
@@ -220,13 +264,13 @@ def run_cases(ctx, cases):
             if 'tseed' in case:
                 tree_case(ctx, mr, case)
             else:
-                run_case(ctx, None, case)
+                run_case(ctx, mr, case)
     finally:
         mr.close()
 
 
 def run(ctx):
-    proof = prove('C17', [], ['C17_props'], static_deps=['Proofs/IvfcProofs.v'])
+    proof = prove('C17', ['util', 'savecommon', 'dpfs'], ['C17_props'], static_deps=['Proofs/IvfcProofs.v', 'Proofs/BlocksProofs.v', 'Proofs/DpfsProofs.v', 'Proofs/IvfcReadProofs.v'])
     run_cases(ctx, gen_cases(ctx, ctx.rng))
 
     def search():
